@@ -78,7 +78,13 @@ for l in open(mfile):
                 verdict, by, first = "detected", c, f"process died rc={rc}"; break
             if rc != 0:
                 verdict, by, first = "engine", c, (rr.stderr[-300:] + rr.stdout[-300:]); break
+    suite = None
+    if verdict == "survived" and os.environ.get("SUITE") == "1":
+        # does the repository's own suite notice this mutant?
+        r = sh("cargo test --workspace --no-fail-fast --offline 2>&1 | grep -E '^test result|^error' ", cwd=repo)
+        lines = [x for x in r.stdout.split("\n") if x.startswith("test result") or x.startswith("error")]
+        suite = "fails" if any(("FAILED" in x or x.startswith("error")) for x in lines) or not lines else "passes"
     sh("git checkout -- .", cwd=repo)
-    rec = dict(m, verdict=verdict, by=by, first=first, secs=round(time.time() - t0, 1))
+    rec = dict(m, verdict=verdict, by=by, first=first, suite=suite, secs=round(time.time() - t0, 1))
     res.write(json.dumps(rec) + "\n"); res.flush()
 print("worker", i, "done")
